@@ -2,6 +2,7 @@ package main
 
 import (
 	"go/ast"
+	"go/constant"
 	"go/token"
 	"go/types"
 	"sort"
@@ -266,7 +267,11 @@ func init() {
 				for _, cl := range sf.callsTo("flag.FlagSet.StringVar") {
 					if u, ok := ast.Unparen(cl.Args[0]).(*ast.UnaryExpr); ok && u.Op == token.AND {
 						if f := sf.selField(u.X); f != nil {
-							got[strings.Trim(types.ExprString(cl.Args[1]), `"`)] = f.Name()
+							name := strings.Trim(types.ExprString(cl.Args[1]), `"`)
+							if tv, ok := sf.Info.Types[cl.Args[1]]; ok && tv.Value != nil && tv.Value.Kind() == constant.String {
+								name = constant.StringVal(tv.Value) // a named constant
+							}
+							got[name] = f.Name()
 						}
 					}
 				}
